@@ -767,6 +767,14 @@ fn c18_case<A: QElem>(rng: &mut Rng, acc: &mut Acc) {
         let j = rng.below(nq);
         qs[j] = qs[(j + 1) % nq];
     }
+    // requests that touch only the two extreme positions of every lane
+    if nq >= 2 && rng.chance(0.12) {
+        for j in 0..nq {
+            qs[j] = *rng.pick(&[0.0, 1.0, 5e-324, 1.0 - 2f64.powi(-53), 1.0, 0.0]);
+        }
+        qs[0] = 0.0;
+        qs[nq - 1] = 1.0;
+    }
     let (epb, eps) = if oned { (Ep::OneDBulk, Ep::OneDSingle) } else { (Ep::AxisBulk, Ep::AxisSingle) };
     let bulk = exec(&c, epb, &qs, st, pick_policy(rng));
     acc.eval();
@@ -823,7 +831,15 @@ fn c18_select(rng: &mut Rng, acc: &mut Acc) {
     let alpha = *rng.pick(&[2usize, 4, 50, 250]);
     let data: Vec<Tracked> = (0..n).map(|i| Tracked { key: rng.below(alpha) as u8, id: i as u16 }).collect();
     let m = rng.below(33);
-    let req: Vec<usize> = (0..m).map(|_| rng.below(n)).collect();
+    let mut req: Vec<usize> = (0..m).map(|_| rng.below(n)).collect();
+    if m >= 2 && rng.chance(0.12) {
+        // only the two extreme positions, in any order and with repeats
+        for x in req.iter_mut() {
+            *x = if rng.chance(0.5) { 0 } else { n - 1 };
+        }
+        req[0] = n - 1;
+        req[m - 1] = 0;
+    }
     let lay = Layout { perm: vec![0], step: vec![*rng.pick(&[1isize, 2, -1, -3])], pad_b: vec![rng.below(2)], pad_a: vec![rng.below(2)] };
     let mut e = Embedded::new(&[n], &data, lay.clone());
     set_pivots(pick_policy(rng));
@@ -1113,6 +1129,182 @@ fn c19_case<A: QElem>(rng: &mut Rng, acc: &mut Acc) {
     acc.sample(|| J::obj(vec![("elem", J::s(A::NAME)), ("data", show_vec(&data)), ("layout", lay.to_json()), ("q_grid_len", J::u(grid.len()))]));
 }
 
+/// order laws lane by lane on n-D arrays through the bulk per-axis entry point (every axis of 2..4-D arrays)
+fn c19_nd_case<A: QElem>(rng: &mut Rng, acc: &mut Acc) {
+    let mut c = gen_case::<A>(rng, 12);
+    if c.shape.len() == 1 {
+        // make it at least 2-D
+        c.shape = vec![1 + rng.below(3), c.shape[0].min(12)];
+        c.axis = rng.below(2);
+        let total: usize = c.shape.iter().product();
+        c.data = gen_lane_values::<A>(rng, total);
+        c.layout = Layout::random(2, rng);
+    }
+    let n = c.shape[c.axis];
+    let mut qs: Vec<f64> = vec![0.0, 1.0];
+    for _ in 0..6 {
+        qs.push(gen_q(rng, n));
+    }
+    qs.sort_by(|a, b| a.partial_cmp(b).unwrap());
+    let lanes = lanes_of(&c.shape, c.axis);
+    let f7 = lanes.iter().any(|l| f7_possible(&l.iter().map(|&i| c.data[i]).collect::<Vec<_>>()));
+    for st in ALL_ST {
+        if st == St::Linear && wide_linear_unjudged(&c.data) {
+            continue;
+        }
+        let kc = if (st == St::Midpoint || st == St::Linear) && f7 { Some("F7") } else { None };
+        let out = exec(&c, Ep::AxisBulk, &qs, st, pick_policy(rng));
+        acc.eval();
+        let res = match &out {
+            Out::Ok(r) => r,
+            other => {
+                acc.violation("law_total", kc, J::obj(vec![("what", J::s(format!("valid bulk call failed: {:?}", other))), ("case", case_json(&c, Ep::AxisBulk, &qs, st))]));
+                return;
+            }
+        };
+        let want = expected_shape(&c.shape, c.axis, Ep::AxisBulk, qs.len());
+        if res.shape() != &want[..] {
+            acc.violation("law_shape", None, J::obj(vec![("what", J::s(format!("result shape {:?}, expected {:?}", res.shape(), want))), ("case", case_json(&c, Ep::AxisBulk, &qs, st))]));
+            return;
+        }
+        for (li, l) in lanes.iter().enumerate() {
+            let vals: Vec<A> = l.iter().map(|&i| c.data[i]).collect();
+            let mn = *vals.iter().min().unwrap();
+            let mx = *vals.iter().max().unwrap();
+            let sl = if A::FLOAT && (st == St::Midpoint || st == St::Linear) { ulp_slack(&mn, &mx) } else { Dy::int(0) };
+            let mut prev: Option<A> = None;
+            for (j, &q) in qs.iter().enumerate() {
+                let v = *result_elem(res, &c.shape, c.axis, Ep::AxisBulk, li, j);
+                acc.count("relations_checked");
+                let bad = v.dy().lt(&mn.dy().sub(&sl)) || mx.dy().add(&sl).lt(&v.dy()) || (q == 0.0 && v != mn) || (q == 1.0 && v != mx) || prev.map(|p| !p.dy().le(&v.dy().add(&sl))).unwrap_or(false);
+                if bad {
+                    acc.violation("law_lane_nd", kc, J::obj(vec![("what", J::s(format!("lane {} (min {}, max {}): Q({:e}) = {} after {:?}", li, mn.show(), mx.show(), q, v.show(), prev.map(|p| p.show())))), ("case", case_json(&c, Ep::AxisBulk, &qs, st))]));
+                    return;
+                }
+                prev = Some(v);
+            }
+        }
+    }
+    if n >= 2 {
+        acc.nontrivial(h64(&(A::NAME, "nd", &c.shape, c.axis, &c.layout, c.data.iter().map(|x| x.bits()).collect::<Vec<_>>())));
+    }
+}
+
+/// order laws on the NaN-skipping entry point (f64 with NaNs, Option<N64> with Nones), lane by lane
+fn c19_skipnan_case(rng: &mut Rng, acc: &mut Acc, use_option: bool) {
+    let nd = 1 + rng.below(3);
+    let axis = rng.below(nd);
+    let mut shape: Vec<usize> = (0..nd).map(|_| 1 + rng.below(3)).collect();
+    shape[axis] = 1 + rng.below(10);
+    let total: usize = shape.iter().product();
+    let vals: Vec<Option<f64>> = (0..total).map(|_| if rng.chance(0.25) { None } else { Some(rng.range(-40, 40) as f64 * 0.3 + rng.range(0, 3) as f64 * 0.01) }).collect();
+    let lay = Layout::random(nd, rng);
+    let mut qs: Vec<f64> = vec![0.0, 1.0];
+    for _ in 0..5 {
+        qs.push(gen_q(rng, shape[axis]));
+    }
+    qs.sort_by(|a, b| a.partial_cmp(b).unwrap());
+    let lanes = lanes_of(&shape, axis);
+    let mut rem = shape.clone();
+    rem.remove(axis);
+    // table[strategy][q] = per-lane Option<f64>
+    let mut table: Vec<Vec<Vec<Option<f64>>>> = vec![];
+    for st in ALL_ST {
+        let mut row = vec![];
+        for &q in &qs {
+            set_pivots(pick_policy(rng));
+            acc.eval();
+            let r: Result<Vec<Option<f64>>, String> = if use_option {
+                let data: Vec<Option<N64>> = vals.iter().map(|v| v.map(n64)).collect();
+                let mut e = Embedded::new(&shape, &data, lay.clone());
+                let mut v = e.view_mut();
+                let out = catch(|| match st {
+                    St::Lower => v.quantile_axis_skipnan_mut(Axis(axis), n64(q), &Lower),
+                    St::Higher => v.quantile_axis_skipnan_mut(Axis(axis), n64(q), &Higher),
+                    St::Nearest => v.quantile_axis_skipnan_mut(Axis(axis), n64(q), &Nearest),
+                    St::Midpoint => v.quantile_axis_skipnan_mut(Axis(axis), n64(q), &Midpoint),
+                    St::Linear => v.quantile_axis_skipnan_mut(Axis(axis), n64(q), &Linear),
+                });
+                match out {
+                    Ok(Ok(a)) if a.shape() == &rem[..] => Ok((0..lanes.len()).map(|li| a[IxDyn(&unravel(li, &rem))].map(|x| x.raw())).collect()),
+                    other => Err(format!("{:?}", other.map(|r| r.map(|a| a.shape().to_vec())))),
+                }
+            } else {
+                let data: Vec<f64> = vals.iter().map(|v| v.unwrap_or(f64::NAN)).collect();
+                let mut e = Embedded::new(&shape, &data, lay.clone());
+                let mut v = e.view_mut();
+                let out = catch(|| match st {
+                    St::Lower => v.quantile_axis_skipnan_mut(Axis(axis), n64(q), &Lower),
+                    St::Higher => v.quantile_axis_skipnan_mut(Axis(axis), n64(q), &Higher),
+                    St::Nearest => v.quantile_axis_skipnan_mut(Axis(axis), n64(q), &Nearest),
+                    St::Midpoint => v.quantile_axis_skipnan_mut(Axis(axis), n64(q), &Midpoint),
+                    St::Linear => v.quantile_axis_skipnan_mut(Axis(axis), n64(q), &Linear),
+                });
+                match out {
+                    Ok(Ok(a)) if a.shape() == &rem[..] => Ok((0..lanes.len()).map(|li| {
+                        let x = a[IxDyn(&unravel(li, &rem))];
+                        if x.is_nan() { None } else { Some(x) }
+                    }).collect()),
+                    other => Err(format!("{:?}", other.map(|r| r.map(|a| a.shape().to_vec())))),
+                }
+            };
+            match r {
+                Ok(v) => row.push(v),
+                Err(m) => {
+                    acc.violation("law_total", None, J::obj(vec![("what", J::s(format!("quantile_axis_skipnan_mut failed or returned a wrong shape: {}", m))), ("shape", J::us(&shape)), ("axis", J::u(axis)), ("strategy", J::s(format!("{:?}", st))), ("q", J::F(q))]));
+                    return;
+                }
+            }
+        }
+        table.push(row);
+    }
+    let cj = |what: String, li: usize| J::obj(vec![("elem", J::s(if use_option { "Option<N64>" } else { "f64" })), ("shape", J::us(&shape)), ("axis", J::u(axis)), ("layout", lay.to_json()), ("lane", J::A(lanes[li].iter().map(|&i| match vals[i] { Some(x) => J::F(x), None => J::s("NA") }).collect())), ("qs", J::A(qs.iter().map(|q| J::F(*q)).collect())), ("what", J::s(what))]);
+    for (li, l) in lanes.iter().enumerate() {
+        let present: Vec<f64> = l.iter().filter_map(|&i| vals[i]).collect();
+        if present.is_empty() {
+            for si in 0..5 {
+                for j in 0..qs.len() {
+                    if table[si][j][li].is_some() {
+                        acc.violation("law_skipnan", None, cj("a lane without non-missing elements gave a value".into(), li));
+                        return;
+                    }
+                }
+            }
+            continue;
+        }
+        let mn = present.iter().cloned().fold(f64::INFINITY, f64::min);
+        let mx = present.iter().cloned().fold(f64::NEG_INFINITY, f64::max);
+        let slack = 4.0 * f64::EPSILON * mn.abs().max(mx.abs());
+        for j in 0..qs.len() {
+            let get = |si: usize| table[si][j][li];
+            let (lo, hi) = match (get(0), get(1)) {
+                (Some(a), Some(b)) => (a, b),
+                _ => {
+                    acc.violation("law_skipnan", None, cj("a lane with non-missing elements gave the missing value".into(), li));
+                    return;
+                }
+            };
+            for si in 0..5 {
+                acc.count("relations_checked");
+                let v = match get(si) {
+                    Some(v) => v,
+                    None => {
+                        acc.violation("law_skipnan", None, cj(format!("{:?} gave the missing value", ALL_ST[si]), li));
+                        return;
+                    }
+                };
+                let sl = if si >= 3 { slack } else { 0.0 };
+                let bad = v < lo - sl || v > hi + sl || v < mn - sl || v > mx + sl || (qs[j] == 0.0 && v != mn) || (qs[j] == 1.0 && v != mx) || (j > 0 && table[si][j - 1][li].map(|p| p > v + sl).unwrap_or(false));
+                if bad {
+                    acc.violation("law_skipnan", None, cj(format!("{:?}: Q({:e}) = {:e} with Lower = {:e}, Higher = {:e}, lane min {:e}, max {:e}, previous {:?}", ALL_ST[si], qs[j], v, lo, hi, mn, mx, if j > 0 { table[si][j - 1][li] } else { None }), li));
+                    return;
+                }
+            }
+        }
+    }
+    acc.nontrivial(h64(&(use_option, &shape, axis, &lay, vals.iter().map(|v| v.map(|x| x.to_bits())).collect::<Vec<_>>())));
+}
+
 fn heap_perms(p: &mut Vec<usize>, k: usize, out: &mut Vec<Vec<usize>>) {
     if k <= 1 {
         out.push(p.clone());
@@ -1178,6 +1370,12 @@ fn main() {
     if prop == "C19" {
         r.section("laws", r.args.n(1_500, 80_000), |k, rng, acc| {
             by_type!(k, c19_case, rng, acc);
+        });
+        r.section("laws_nd", r.args.n(4_000, 200_000), |k, rng, acc| {
+            by_type!(k, c19_nd_case, rng, acc);
+        });
+        r.section("laws_skipnan", r.args.n(2_000, 100_000), |k, rng, acc| {
+            c19_skipnan_case(rng, acc, k % 2 == 0);
         });
     }
     r.finish("quant", vec![]);
